@@ -601,6 +601,20 @@ def run(ctx):
     ctx.check(not textops, "R7.10", "Selector.__init__:expression-text", f"the expression text is rewritten with `{norm(textops[0])[:60] if textops else ''}` before it is compiled: string literals "
               "inside it change with it", textops[0] if textops else si10, "compile(expression or 'True', ...)", key="R7.10:Selector.__init__:expression-text-rewritten")
 
+    # ------------------------------------------------------------------ R7.11 a field that is None is a value, not a missing field
+    ctx.rule("R7.11", "get_field (the read behind field_equals / field_contains / field_regex) returns getattr(record, name, SENTINEL) as it is: the helpers skip a field only "
+                      "when it IS the sentinel, so turning a present-but-None value into the sentinel makes `field_equals(r, ['f'], [None])` false where Python gives true")
+    from ..core import expand_aliases, single_assign_aliases  # noqa: F811
+    gf11 = ctx.anchor_func("flow.record.selector.get_field")
+    rets11 = [r for r in walk_no_nested(gf11) if isinstance(r, ast.Return) and r.value is not None]
+    ctx.floor("R7.11", "returns of get_field", len(rets11), 1)
+    al11 = single_assign_aliases(gf11)
+    for rt in rets11:
+        v = expand_aliases(rt.value, al11)
+        okv = isinstance(v, ast.Call) and call_name(v) == "getattr" and len(v.args) == 3 and norm(v.args[0]) == func_params(gf11)[0]
+        ctx.check(okv, "R7.11", f"get_field:return {norm(rt.value)[:40]}", f"`return {norm(v)[:70]}` is not the plain three-argument getattr on the record: a stored value can be replaced on the way out", rt,
+                  "return getattr(r, field, NONE_OBJECT)", key="R7.11:get_field:value-replaced")
+
 
 
 def is_special_name(name: str) -> bool:
